@@ -18,7 +18,7 @@ template <typename R, typename P>
     requires(numeric_limits<R>::is_signed)
 constexpr auto abs(duration<R, P> d) noexcept(is_arithmetic_v<R>) -> duration<R, P>
 {
-    return d < duration<R, P>::zero() ? duration<R, P>::zero() - d : d;
+    return d < duration<R, P>::zero() ? duration<R, P>(duration<R, P>::zero() - d) : d;
 }
 
 } // namespace etl::chrono
